@@ -83,6 +83,33 @@ def body_queue(S, loop, part):
             em.add_handler(ev, h, priority=priority, **kw)
     add("outer", 0, kinds[0], prio[0], delay[0], post_inner=(nested_from == 0), reg=regv)
     add("outer", 1, kinds[1], prio[1], delay[1], post_inner=(nested_from == 1))
+    # a conditional sync handler (lowest priority): its condition reads state that the earlier handlers change when they finish
+    state = {"flag": part["cond"][0] if "cond" in part else bool(S.bool("cond_initial"))}
+    flips = part["cond"][1] if "cond" in part else bool(S.bool("first_handler_flips_condition"))
+    cond_eval = []
+
+    class Cond:
+        def evaluate(self, kwargs):
+            cond_eval.append((state["flag"], len([x for x in log if x[0] == "outer" and x[1] == "c"])))
+            return state["flag"]
+
+    def hc(**kwargs):
+        log.append(("outer", "hc"))
+    key = em.add_handler("outer", hc, priority=-2000)
+    lst = em.registered_handlers["outer"]
+    for i, rh in enumerate(lst):
+        if rh.key == key.key:
+            lst[i] = rh._replace(condition=Cond())
+    orig_log_append = log.append
+    if flips:
+        # the flag flips when the first wait/coroutine of the outer event has been cleared (or at once if nothing waits)
+        class L(list):
+            def append(self, x):
+                list.append(self, x)
+                if x[0] == "outer" and x[1] == "c" and not getattr(self, "_done", False):
+                    self._done = True
+                    state["flag"] = not state["flag"]
+        log = L(log)
     add("inner", 0, 1, prio[2], delay[2])
     add("second", 0, kinds[2], 1, delay[3])
     em.post_queue("outer", lambda **kw: log.append(("outer", "cb", kw.get("v"))), v=postv)
@@ -110,6 +137,11 @@ def body_queue(S, loop, part):
         want = regv if x[2] == 0 else postv
         if x[3] != want:
             raise Violation("registered-kwargs-override-posted", "_run_handlers_sequential", "outer handler %d saw v=%s expected %s" % (x[2], x[3], want))
+    ran_cond = ("outer", "hc") in log
+    want_cond = state["flag"]          # the value the condition has when the handler's turn comes = final value (it is last)
+    if ran_cond != want_cond:
+        raise Violation("conditional-handler-acts-on-current-value", "_run_handlers_sequential",
+                        "conditional handler %s although its condition is %s when its turn comes (evaluations %s)" % ("ran" if ran_cond else "did not run", want_cond, cond_eval))
     cb = [x for x in log if x[0] == "outer" and x[1] == "cb"][0]
     if cb[2] != postv:
         raise Violation("callback-gets-posted-kwargs", "_run_handlers_sequential", "callback saw v=%s, posted %s" % (cb[2], postv))
@@ -130,10 +162,16 @@ def body_relay_bool(S, loop, part):
         add = [S.int("add%d" % i, -5, 5) for i in range(3)]
         ret_kind = [S.choice("ret%d" % i, 3) for i in range(3)]       # 0: return dict, 1: return None, 2: return non-dict
 
+        newkey = part["newkey"] if "newkey" in part else [bool(S.bool("adds_new_key%d" % i)) for i in range(3)]
+        seen_w = []
+
         def mk(i):
-            def h(v, **kwargs):
+            def h(v, w=None, **kwargs):
                 seen.append((i, v))
+                seen_w.append((i, w))
                 if ret_kind[i] == 0:
+                    if newkey[i]:
+                        return {"v": v + add[i], "w": 100 + i}
                     return {"v": v + add[i]}
                 if ret_kind[i] == 2:
                     return 7
@@ -146,13 +184,20 @@ def body_relay_bool(S, loop, part):
         em.process_event_queue()
         order = sorted(range(3), key=lambda i: -prio[i])
         cur = v0
+        cur_w = None
         for pos, i in enumerate(order):
+            if pos < len(seen_w) and seen_w[pos][1] != cur_w:
+                raise Violation("relay-hands-updated-arguments", "_run_handlers", "handler %d saw w=%s, expected %s (an argument added by an earlier handler)" % (i, seen_w[pos][1], cur_w))
+            if ret_kind[i] == 0 and newkey[i]:
+                cur_w = 100 + i
             if pos >= len(seen) or seen[pos][0] != i:
                 raise Violation("priority-order", "_run_handlers", "relay handlers ran as %s expected %s" % ([s[0] for s in seen], order))
             if seen[pos][1] != cur:
                 raise Violation("relay-hands-updated-arguments", "_run_handlers", "handler %d saw v=%s, expected %s (as updated by earlier handlers)" % (i, seen[pos][1], cur))
             if ret_kind[i] == 0:
                 cur = cur + add[i]
+        if len(result) == 1 and result[0].get("w") != cur_w:
+            raise Violation("relay-returns-final-arguments", "_process_event", "relay result %s lacks w=%s" % (result, cur_w))
         if len(result) != 1 or result[0].get("v") != cur:
             raise Violation("relay-returns-final-arguments", "_process_event", "relay result %s expected v=%s" % (result, cur))
     else:
@@ -247,10 +292,14 @@ def scenarios(tier):
     for k0 in range(3):
         for k1 in range(3):
             for nf in (None, 0, 1):
-                qparts.append(dict(kinds=[k0, k1, (k0 + k1) % 3 if tier == "quick" else 1], nested_from=nf))
+                n = len(qparts)
+                qparts.append(dict(kinds=[k0, k1, (k0 + k1) % 3 if tier == "quick" else 1], nested_from=nf, cond=[bool(n & 1), bool(n & 2)]))
     if tier != "quick":
         qparts += [dict(kinds=[k0, k1, k2], nested_from=nf) for k0 in range(3) for k1 in range(3) for k2 in (0, 2) for nf in (None, 0, 1)]
-    rparts = [dict(type="relay"), dict(type="boolean")]
+    rparts = [dict(type="relay", newkey=[False, False, False]), dict(type="relay", newkey=[True, False, False]), dict(type="relay", newkey=[False, True, False]),
+              dict(type="relay", newkey=[True, False, True]), dict(type="boolean")]
+    if tier != "quick":
+        rparts.append(dict(type="relay"))
     mparts = [dict(mode="mwait"), dict(mode="mplain")]
     pb = 50 if tier == "quick" else 240
     return [Scenario("queue", setup, body_queue, qparts, teardown=teardown, part_budget=pb, per_path_timeout=30),
